@@ -159,6 +159,22 @@ impl<'r> Gen<'r> {
         }
     }
 
+    /// a comparison of two float operands, at least one a variable (so that NaN / infinities / zeros of the argument grid
+    /// reach it), not parenthesised and not negated: the statement's condition *is* the comparison
+    fn float_cmp(&mut self, scope: &[VarInfo]) -> Option<String> {
+        if !self.opts.floats {
+            return None;
+        }
+        let vs = self.vars_of(scope, T::Float, false);
+        if vs.is_empty() {
+            return None;
+        }
+        let l = self.rng.pick(&vs).clone();
+        let r = if self.rng.chance(1, 2) { self.rng.pick(&vs).clone() } else { self.leaf(T::Float, scope) };
+        let op = *self.rng.pick(&["<", "<=", ">", ">=", "==", "!="]);
+        Some(if self.rng.chance(1, 2) { format!("{} {} {}", l, op, r) } else { format!("{} {} {}", r, op, l) })
+    }
+
     /// right operand: sometimes of a different numeric type (usual arithmetic conversions)
     fn operand(&mut self, t: T, d: u32, scope: &[VarInfo]) -> String {
         if t != T::Bool && self.rng.chance(1, 6) {
@@ -352,7 +368,11 @@ impl<'r> Gen<'r> {
             7 | 8 => {
                 // either side is sometimes empty (`{ }`, `;`, `{ { } }`): the then-side one time in five, and then there is
                 // always an else; conditions are often directly a comparison of floats (`expr(Bool)`, productions 0..2)
-                out.push_str(&format!("{}if ({})\n", ind, self.expr(T::Bool, d, scope)));
+                let cond = match self.float_cmp(scope) {
+                    Some(c) if self.rng.chance(1, 3) => c,
+                    _ => self.expr(T::Bool, d, scope),
+                };
+                out.push_str(&format!("{}if ({})\n", ind, cond));
                 let empty_then = self.rng.chance(1, 5);
                 self.body(empty_then, depth - 1, scope, in_loop, ret, ind, out);
                 if empty_then || self.rng.chance(1, 2) {
